@@ -114,13 +114,82 @@ def main(argv=None):
         for j in jobs:
             results.append(_worker(j))
     else:
-        with mp.get_context("fork").Pool(min(a.jobs, len(jobs)), maxtasksperchild=50) as pool:
-            for r in pool.imap_unordered(_worker, jobs, chunksize=1):
-                results.append(r)
+        results = run_pool(mod, jobs, a.jobs, a.tier)
     results.sort(key=lambda r: r["idx"])
     rc = report(prop, a.tier, seed, mod, cfgs, results, time.time() - t0, write=not a.no_evidence
                 and not a.only)
     return rc
+
+
+def _isolated(job, conn):
+    try:
+        conn.send(_worker(job))
+    except BaseException as e:  # noqa: BLE001
+        conn.send({"idx": job[1], "cfg": job[2], "crash": f"{type(e).__name__}: {e}"})
+    finally:
+        conn.close()
+
+
+def run_pool(mod, jobs, njobs, tier):
+    """process pool that survives a dying worker (a solver crash must not hang the check).
+    Phase 1: an executor over all configurations.  If a worker dies the executor breaks; the
+    configurations without a result are then re-run, each in a process of its own with a time
+    limit, so that only the configuration that kills its process is reported as crashed."""
+    import concurrent.futures as cf
+    budget = 300
+    for h in mod.HARNESSES.values():
+        lim = h.get("limits", {}).get(tier)
+        if lim is not None:
+            budget = max(budget, lim.wall_s + 120)
+    results, done = [], set()
+    ctx = mp.get_context("fork")
+    try:
+        with cf.ProcessPoolExecutor(max_workers=min(njobs, len(jobs)), mp_context=ctx) as ex:
+            futs = {ex.submit(_worker, j): j for j in jobs}
+            for f in cf.as_completed(futs):
+                j = futs[f]
+                try:
+                    results.append(f.result())
+                    done.add(j[1])
+                except cf.process.BrokenProcessPool:
+                    pass
+                except Exception as e:  # noqa: BLE001
+                    results.append({"idx": j[1], "cfg": j[2], "crash": f"{type(e).__name__}: {e}"})
+                    done.add(j[1])
+    except cf.process.BrokenProcessPool:
+        pass
+    rest = [j for j in jobs if j[1] not in done]
+    running = []
+    while rest or running:
+        while rest and len(running) < njobs:
+            j = rest.pop(0)
+            a, b = ctx.Pipe(duplex=False)
+            p = ctx.Process(target=_isolated, args=(j, b))
+            p.start()
+            b.close()
+            running.append((j, p, a, time.time()))
+        still = []
+        for j, p, a, t0 in running:
+            if a.poll():
+                try:
+                    results.append(a.recv())
+                except EOFError:
+                    results.append({"idx": j[1], "cfg": j[2],
+                                    "crash": f"worker process died (exit code {p.exitcode})"})
+                p.join(5)
+            elif not p.is_alive():
+                results.append({"idx": j[1], "cfg": j[2],
+                                "crash": f"worker process died (exit code {p.exitcode})"})
+            elif time.time() - t0 > budget:
+                p.kill()
+                results.append({"idx": j[1], "cfg": j[2],
+                                "crash": f"no result within {budget}s (killed)"})
+            else:
+                still.append((j, p, a, t0))
+        running = still
+        if running:
+            time.sleep(0.05)
+    return results
 
 
 def z3_seed(seed):
@@ -184,6 +253,9 @@ def report(prop, tier, seed, mod, cfgs, results, wall, write=True):
 
     # replay candidate violations and known-finding witnesses on the unpatched library
     os.makedirs(os.path.join(VERIF, "replays"), exist_ok=True)
+    import glob
+    for old in glob.glob(os.path.join(VERIF, "replays", f"{prop}-*.json")):
+        os.unlink(old)
     confirmed = []
     seen = set()
     for cfg, v in violations:
